@@ -198,6 +198,14 @@ func (p *plan) isPathVar(path string) bool {
 	return false
 }
 
+// bodyPrefix is the dotted prefix of fields inside the body message.
+func (p *plan) bodyPrefix() string {
+	if p.body == nil {
+		return ""
+	}
+	return protoPath(p.body) + "."
+}
+
 func (p *plan) bodyPath() string {
 	if p.body == nil {
 		return ""
@@ -403,6 +411,10 @@ func requestRules() (dynamic []RuleSpec, real []RuleSpec) {
 		pbRule("Complex", "Check", "ComplexRequest", "google.protobuf.Empty", "GET", "/v1/complex", ""),
 		pbRule("Complex", "Check", "ComplexRequest", "google.protobuf.Empty", "GET", "/v1/complex/{double_value}/star/*", ""),
 		pbRule("Complex", "Check", "ComplexRequest", "google.protobuf.Empty", "GET", "/v1/complex/{double_value}/starstar/**", ""),
+		// implicit bindings: any verb, /package.Service/Method, body "*"
+		pbRule("Messaging", "GetMessageTwo", "GetMessageRequestTwo", rsp+"Message", "*", "/larking.testpb.Messaging/GetMessageTwo", "*"),
+		pbRule("Messaging", "UpdateBook", "UpdateBookRequest", rsp+"Book", "*", "/larking.testpb.Messaging/UpdateBook", "*"),
+		pbRule("Complex", "Check", "ComplexRequest", "google.protobuf.Empty", "*", "/larking.testpb.Complex/Check", "*"),
 	}
 	return dynamic, real
 }
